@@ -183,7 +183,7 @@ def _panel(task, rec):
 
 
 # ------------------------------------------------------------------ operation histories on one Database
-H_OPS = ['new', 'new_big', 'll', 'sim', 'remove', 'boot', 'init0', 'init_half']
+H_OPS = ['new', 'new_big', 'll', 'sim', 'remove', 'boot', 'init0', 'init_half', 'thr1', 'thr3']
 
 
 def _history_rows(nrows):
@@ -236,6 +236,9 @@ def _run_history(hist, rec):
             elif b is None or not created_after_remove:
                 rec.count('history_steps_not_applicable')
                 return
+            elif op in ('thr1', 'thr3'):
+                # the thread count is changed on the live object (number_of_threads setter), as a user does between two uses
+                b.number_of_threads = int(op[3:])
             elif op == 'll':
                 names = list(b.free_beta_names)
                 xv = np.array([x[nm] for nm in names], dtype=float)
@@ -304,6 +307,11 @@ def history_list(tier):
         # depth 5 over the sub-alphabet that changes what the engine holds (new model, remove, bootstrap) + the observation
         for h in itertools.product(['new', 'remove', 'boot', 'll', 'sim'], repeat=5):
             if h[0] != 'new' or h[-1] != 'll' or h.count('boot') > 1 or h.count('remove') > 1:
+                continue
+            out.append(list(h))
+        # depth 5 over the sub-alphabet around the thread count of a live object
+        for h in itertools.product(['new', 'thr1', 'thr3', 'll', 'sim', 'boot'], repeat=5):
+            if h[0] != 'new' or h[-1] not in ('ll', 'sim') or h.count('boot') > 1 or not any(o.startswith('thr') for o in h):
                 continue
             out.append(list(h))
     return out
